@@ -7,7 +7,7 @@
      C04_C05_history_rt the same for the generated tables. *)
 From AV Require Import Base.Bytes Base.Outcome Hash.HashModel Tree.Heap Tree.Ops Tree.Script Tree.Inv Tree.InvProofs.
 From AV Require Import Tree.Index Tree.IndexProofsBase Tree.IndexProofs Tree.Refs Tree.RefsProofsOps Tree.RefsProofsSetName
-  Tree.IndexProofsBridge Tree.IndexProofsMoveOp Tree.IndexProofsTablesReal Spec.SpecReal Tree.CheckFn.
+  Tree.IndexProofsBridge Tree.IndexProofsMoveOp Tree.IndexProofsCopy Tree.IndexProofsTablesReal Spec.SpecReal Tree.CheckFn.
 Open Scope string_scope.
 Open Scope list_scope.
 Open Scope N_scope.
@@ -98,6 +98,80 @@ Proof.
   - rewrite run_hist_run_ops. exact H.
 Qed.
 
+(* ---------- second refinement (Pending45x): copies and every move inside one model *)
+Theorem C45_inv_x w o r w' :
+  TreeFacts w -> Inv04 w -> Inv05 T w ->
+  Known04 T LATEST w o = false -> Known05 w o = false -> Pending45x w o = false ->
+  run o w = Val (r, w') -> Inv04 w' /\ Inv05 T w'.
+Proof.
+  intros HF HI4 HI5 HK4 HK5 HP H.
+  assert (Hother : Pending45 w o = false -> Inv04 w' /\ Inv05 T w').
+  { intros HP0. eapply (C45_inv_partial T tab_el tab_en check_fn LATEST root_attrs TK); eauto. }
+  destruct o; try (apply Hother; reflexivity); cbn [run_op] in H.
+  - apply welem_inv in H as (r0 & H). eapply (C45_copy T tab_el tab_en check_fn LATEST TK root_attrs); eauto.
+  - apply welem_inv in H as (r0 & H). eapply (C45_copy_at T tab_el tab_en check_fn LATEST TK root_attrs); eauto.
+  - apply welem_inv in H as (r0 & H). cbn [Pending45x] in HP. apply negb_false_iff in HP.
+    destruct (C45_move T tab_el tab_en check_fn LATEST TK root_attrs h mv w r0 w' (conj HF (conj HI4 HI5)) HK4 HK5 HP H) as (_ & H1 & H2). auto.
+  - apply welem_inv in H as (r0 & H). cbn [Pending45x] in HP. apply negb_false_iff in HP.
+    destruct (C45_move_at T tab_el tab_en check_fn LATEST TK root_attrs h mv pos w r0 w' (conj HF (conj HI4 HI5)) HK4 HK5 HP H) as (_ & H1 & H2). auto.
+Qed.
+
+Fixpoint steps_ok5x (l : list op) (w : world) : Prop :=
+  match l with
+  | [] => True
+  | o :: rest =>
+    TreeFacts w /\ Known04 T LATEST w o = false /\ Known05 w o = false /\ Pending45x w o = false /\
+    match run o w with Val (_, w') => steps_ok5x rest w' | _ => True end
+  end.
+
+Theorem C45_history_x l : forall w w',
+  Inv04 w -> Inv05 T w -> steps_ok5x l w ->
+  run_hist T tab_el tab_en check_fn LATEST root_attrs l w = Val w' -> Inv04 w' /\ Inv05 T w'.
+Proof.
+  induction l as [|o rest IH]; intros w w' HI4 HI5 Hok H; cbn in *.
+  - injection H as <-. auto.
+  - destruct Hok as (HF & HK4 & HK5 & HP & Hrest). destruct (run o w) as [[r w1]| |] eqn:E; try discriminate.
+    destruct (C45_inv_x w o r w1 HF HI4 HI5 HK4 HK5 HP E) as (H1 & H2).
+    eapply IH; eauto.
+Qed.
+
+Fixpoint clean45x (l : list op) (w : world) : bool :=
+  match l with
+  | [] => true
+  | o :: rest =>
+    negb (Known03 w o) && negb (Known04 T LATEST w o) && negb (Known05 w o)
+    && negb (Pending45x w o)
+    && match run o w with Val (_, w') => clean45x rest w' | _ => true end
+  end.
+
+Lemma clean45x_steps l : forall w, TreeInv w -> clean45x l w = true -> steps_ok5x l w.
+Proof.
+  induction l as [|o l IH]; intros w HT Hc; cbn in *; [exact I|].
+  repeat (apply andb_true_iff in Hc as (Hc & ?)).
+  repeat match goal with H : negb _ = true |- _ => apply negb_true_iff in H end.
+  split; [apply treeinv_treefacts; exact HT|]. repeat (split; [assumption|]).
+  destruct (run o w) as [[r w1]| |] eqn:E; try exact I. apply IH; [|assumption].
+  eapply TreeInv_step; eauto.
+Qed.
+
+Theorem C04_C05_history_x l w' :
+  clean45x l empty_world = true -> run_ops l empty_world = Val w' ->
+  TreeFacts w' /\ Inv04 w' /\ Inv05 T w'.
+Proof.
+  intros Hc H.
+  assert (HT : TreeInv w').
+  { eapply TreeInv_histories; [apply empty_treeinv| |exact H].
+    clear H. revert Hc. generalize empty_world. induction l as [|o l IH]; intros w Hc; cbn in *; [reflexivity|].
+    repeat (apply andb_true_iff in Hc as (Hc & ?)). apply andb_true_iff. split; [assumption|].
+    unfold Inv.run. destruct (run o w) as [[r w1]| |]; auto. }
+  split; [apply treeinv_treefacts; exact HT|].
+  eapply (C45_history_x l empty_world w').
+  - apply Inv04_empty.
+  - apply Inv05_empty.
+  - apply clean45x_steps; [apply empty_treeinv|exact Hc].
+  - rewrite run_hist_run_ops. exact H.
+Qed.
+
 End Closed.
 
 (* [F] the generated tables, any name tables, any DFA tables of the table-driven validators *)
@@ -107,3 +181,10 @@ Theorem C04_C05_history_rt (dfas : N -> option (list (list N) * list N)) (tab_el
   Inv.run_ops RT tab_el tab_en (check_fn_model dfas) LATEST root_attrs l empty_world = Val w' ->
   TreeFacts w' /\ Inv04 RT (check_fn_model dfas) w' /\ Inv05 RT w'.
 Proof. apply C04_C05_history. apply real_tables_ok. Qed.
+
+Theorem C04_C05_history_x_rt (dfas : N -> option (list (list N) * list N)) (tab_el tab_en : nametab) (LATEST : N)
+        (root_attrs : list (N * cdata)) l w' :
+  clean45x RT tab_el tab_en (check_fn_model dfas) LATEST root_attrs l empty_world = true ->
+  Inv.run_ops RT tab_el tab_en (check_fn_model dfas) LATEST root_attrs l empty_world = Val w' ->
+  TreeFacts w' /\ Inv04 RT (check_fn_model dfas) w' /\ Inv05 RT w'.
+Proof. apply C04_C05_history_x. apply real_tables_ok. Qed.
